@@ -670,7 +670,7 @@ class RecvFull(StageContract):
             er = P.find_eval(L.f[0])
             yield 'f0_reevaluated', er is not None and bool(veq(er.u, L.u[0])) is True
             if er is not None:
-                yield 'f0_at_step_start_time', seq(er.t, L.time)
+                yield 'f0_at_step_start_time', seq(er.t, L.status.time)
             frame = [f'S{p}.levels[{l}].u[0]', f'S{p}.levels[{l}].f[0]', f'S{p}.levels[{l}].prob']
         else:
             frame = []
